@@ -195,4 +195,22 @@ def polygonFlipsOf (pathLen sides : Nat) (closed : Bool) (idx : List Nat) : List
     | some x => x == qi.1.2.1 + qi.1.2.2
     | none => false
 
+/-! ### the extrusion entry points with their rejection branch: `none` = the Go function panics -/
+
+/-- `extrude.polygon(sides, points, closed)` (circle.go:51-57): panics for fewer than 2 points or fewer than 3 sides -/
+def extrudePolygon? (pathLen sides : Nat) (closed : Bool) (flips : List Bool) : Option (Nat × List Nat) :=
+  if pathLen < 2 ∨ sides < 3 then none else some (polygonVerts pathLen sides, polygonTris pathLen sides closed flips)
+
+/-- `extrude.makeShape(shape, path, close)` (shape.go:12-14): panics for fewer than 2 path points; any shape size -/
+def extrudeShape? (pathLen sides : Nat) (close : Bool) : Option (Nat × List Nat) :=
+  if pathLen < 2 then none else some (extrudeShapeVerts pathLen sides, extrudeShapeTris pathLen sides close)
+
+/-- `extrude.Line(points)` (line.go:27-29): panics for fewer than 2 points -/
+def extrudeLine? (n : Nat) : Option (Nat × List Nat) :=
+  if n < 2 then none else some (extrudeLineVerts n, extrudeLineTris n)
+
+/-- `ScrewNodeData.Process` (screw.go:30-40): never rejects; fewer than 2 line points or segments give the empty mesh -/
+def screw (lineLen segments : Nat) : Nat × List Nat :=
+  if lineLen < 2 ∨ segments < 2 then (0, []) else (screwVerts lineLen segments, screwTris lineLen segments)
+
 end PolyVerif.Prim
